@@ -396,3 +396,18 @@ def run_shard(shard: int, nshards: int, seed: int, tier: str) -> ShardResult:
 def replay(case) -> Failure | None:
     f, _ = case_oracle(case)
     return f
+
+
+def _known_reshape_of_reshape_floordiv(case, failure) -> bool:
+    """same root cause as C01-loopy-floordiv-negative-numerator: the failure
+    disappears when reshapes inlined into reshapes are stored"""
+    if "spec" not in case:
+        return False
+    from pvf.props import c01
+    ops = c01._derived(case["spec"], lambda n: n["op"] == "reshape")
+    v = c01._store(case["spec"], lambda n, pos: n["op"] == "reshape", ops)
+    return v is not None and replay({"spec": v}) is None
+
+
+KNOWN_PREDICATES = {
+    "reshape_of_reshape_floordiv": _known_reshape_of_reshape_floordiv}
